@@ -61,6 +61,13 @@ def run_cfg(ctx, p, cfg):
     with ctx.rule("E1b", "file-system errors are not swallowed", cfg) as r:
         cone = rotation_cone(p)
         n = 0
+        mv_ok, mv_path = False, None
+        if "fixed_window_roller" in feats:
+            try:
+                mv_path = c07.roles(p)["move_file"].path
+                mv_ok = c07.move_file_contract_holds(p)
+            except Exception:
+                mv_ok = False
         for path in sorted(cone):
             f = p.fns[path]
             if "Derive" in (f.d.get("exp") or ""):
@@ -70,6 +77,11 @@ def run_cfg(ctx, p, cfg):
                 if not (c.callee or "").startswith("std::fs::") or not c.t.get("dest_ty", "").startswith("core::result::Result<"):
                     continue
                 n += 1
+                if mv_ok and path == mv_path:
+                    # decided row by row by the move_file table (E5b): the only error of a file-system call that ends in Ok is the
+                    # rename's NotFound
+                    r.ok("fs-error-reaches-the-caller:%s/%s" % (path.rsplit("::", 1)[-1], common.role(c)), fn=f, site=c.at, detail="by the move_file table: only rename/NotFound ends in Ok")
+                    continue
                 leaks = []
                 for blk in f.blocks:
                     if blk["term"]["k"] != "switch" or blk["id"] not in f.reachable_blocks():
